@@ -381,11 +381,14 @@ class MNTM(ntm.NTM):
                 extended_tape, head_symbol, tape_separator_symbol
             )
 
-            # Get all possible transitions
-            try:
-                possible_configs = self.transitions[current_state][virtual_heads]
-            except KeyError:
+            # Get all possible transitions (membership tests instead of
+            # catching KeyError: a lookup must not insert into a defaultdict)
+            if (
+                current_state not in self.transitions
+                or virtual_heads not in self.transitions[current_state]
+            ):
                 continue  # No valid transition, try other paths
+            possible_configs = self.transitions[current_state][virtual_heads]
 
             # Process each possible next configuration
             for next_config in possible_configs:
